@@ -301,14 +301,15 @@ structure BSt where
 
 def Cat.findInter (c : Cat) (id : Bytes) : Option Inter := c.inters.find? (·.id == id)
 
+/-- Interactions.Update: the value changes, the key (and the place in the order) never does -/
 def Cat.updHttp (c : Cat) (id : Bytes) (f : HttpI → HttpI) : Cat :=
   { c with inters := c.inters.map fun i => match i with
-      | .http h => if h.id == id then .http (f h) else i
+      | .http h => if h.id == id then .http { f h with id := h.id } else i
       | _ => i }
 
 def Cat.updRpc (c : Cat) (id : Bytes) (f : RpcI → RpcI) : Cat :=
   { c with inters := c.inters.map fun i => match i with
-      | .rpc r => if r.id == id then .rpc (f r) else i
+      | .rpc r => if r.id == id then .rpc { f r with id := r.id } else i
       | _ => i }
 
 /-! ### Directive.Path / HTTPMethod / JsonRpcMethodName over the chain directive :: ancestors -/
@@ -592,27 +593,34 @@ def resolveTags (tags : List TagE) (td : Dir) : Except PErr (List Bytes) :=
 def appendToTag (tags : List TagE) (name id : Bytes) (isHttp : Bool) : List TagE :=
   tags.map fun t => if t.name == name then (if isHttp then { t with http := t.http ++ [id] } else { t with rpc := t.rpc ++ [id] }) else t
 
+/-- tags named by a Tags directive, with the id appended to each -/
+def tagsFromDir (c : Cat) (td : Dir) (id : Bytes) (isHttp : Bool) : Except PErr (List Bytes × List TagE) :=
+  match resolveTags c.tags td with
+  | .error e => .error e
+  | .ok names => .ok (names, names.foldl (fun ts n => appendToTag ts n id isHttp) c.tags)
+
+/-- getParentTagsDirective -/
+def parentTagsDir (anc : List Dir) (parentKids : List DT) : Option Dir :=
+  match anc with
+  | p :: _ => if p.kind == .URL then firstTagsKid parentKids else none
+  | [] => none
+
+/-- Catalog.pathTag + append -/
+def pathTagFor (c : Cat) (id path : Bytes) (isHttp : Bool) : List Bytes × List TagE :=
+  let title := pathTagTitle path
+  let name := tagName title
+  let tags := if c.tags.any (·.name == name) then c.tags else c.tags ++ [{ name := name, title := title }]
+  ([name], appendToTag tags name id isHttp)
+
 /-- Catalog.tagNames: the interaction's tags, with the id appended to each -/
 def tagNames (c : Cat) (kids : List DT) (anc : List Dir) (parentKids : List DT) (id path : Bytes) (isHttp : Bool) :
     Except PErr (List Bytes × List TagE) :=
-  let fromDir (td : Dir) : Except PErr (List Bytes × List TagE) :=
-    match resolveTags c.tags td with
-    | .error e => .error e
-    | .ok names => .ok (names, names.foldl (fun ts n => appendToTag ts n id isHttp) c.tags)
   match firstTagsKid kids with
-  | some td => fromDir td
+  | some td => tagsFromDir c td id isHttp
   | none =>
-    let parentTags : Option Dir :=
-      match anc with
-      | p :: _ => if p.kind == .URL then firstTagsKid parentKids else none
-      | [] => none
-    match parentTags with
-    | some td => fromDir td
-    | none =>
-      let title := pathTagTitle path
-      let name := tagName title
-      let tags := if c.tags.any (·.name == name) then c.tags else c.tags ++ [{ name := name, title := title }]
-      .ok ([name], appendToTag tags name id isHttp)
+    match parentTagsDir anc parentKids with
+    | some td => tagsFromDir c td id isHttp
+    | none => .ok (pathTagFor c id path isHttp)
 
 def isRpcKid (d : Dir) : Bool := d.kind == .Protocol || d.kind == .Method
 
@@ -630,77 +638,92 @@ def bodySpec (d : Dir) : Except PErr (String × String) :=
   | none => .error (kwErr d "unknown notation")
   | some n => .ok (formatOf n, n)
 
+/-- Catalog.AddRequestBody -/
+def setRequestBody (cat : Cat) (d : Dir) (id : Bytes) (fmt nota : String) : Except PErr Cat :=
+  match cat.findInter id with
+  | some (.http h) =>
+    match h.request with
+    | none => .error (kwErr d "the request cannot be empty for \"_\"")
+    | some (rd, body, hdr) =>
+      if body.isSome then .error (kwErr d mNotUnique)
+      else .ok (cat.updHttp id fun h => { h with request := some (rd, some (fmt, nota), hdr) })
+  | _ => .error (kwErr d "resource not found \"_\"")
+
+/-- Catalog.AddRequest: only for the Request directive, only if there is none yet -/
+def markRequest (cat : Cat) (d : Dir) (id : Bytes) : Cat :=
+  if d.kind == .Request then
+    cat.updHttp id fun h => if h.request.isNone then { h with request := some (d, none, false) } else h
+  else cat
+
+/-- which of the four accepted parameter/body combinations of a request body this is -/
+def requestBodyCase (d : Dir) (nota : String) : Bool :=
+  let typ := d.namedParam "Type"
+  let jsight := nota == "jsight"
+  (jsight && typ != [] && !d.bodyIsSet) || (jsight && typ == [] && d.bodyIsSet)
+    || (nota == "regex" && typ == [] && d.bodyIsSet)
+    || ((nota == "any" || nota == "empty") && !d.bodyIsSet)
+
 /-- addRequest (for Request itself and for Body under Request) -/
 def addRequest (s : BSt) (d : Dir) (anc : List Dir) : Except PErr BSt :=
   if d.ann != [] then .error (kwErr d mAnnForbidden)
-  else
-    let sn := d.namedParam "SchemaNotation"
-    let typ := d.namedParam "Type"
-    if sn != [] && typ != [] then .error (kwErr d "directive parameters `Type` and `SchemaNotation` cannot be declared simultaneously")
-    else
-      match bodySpec d with
-      | .error e => .error e
-      | .ok (fmt, nota) =>
-        match httpId (d :: anc) with
-        | .error e => .error (kwErr d e)
-        | .ok (id, _) =>
-          -- AddRequest: only for the Request directive, only if there is none yet
-          let cat := if d.kind == .Request then
-              s.cat.updHttp id fun h => if h.request.isNone then { h with request := some (d, none, false) } else h
-            else s.cat
-          let setBody : Except PErr Cat :=
-            match cat.findInter id with
-            | some (.http h) =>
-              match h.request with
-              | none => .error (kwErr d "the request cannot be empty for \"_\"")
-              | some (rd, body, hdr) =>
-                if body.isSome then .error (kwErr d mNotUnique)
-                else .ok (cat.updHttp id fun h => { h with request := some (rd, some (fmt, nota), hdr) })
-            | _ => .error (kwErr d "resource not found \"_\"")
-          let jsight := nota == "jsight"
-          if (jsight && typ != [] && !d.bodyIsSet) || (jsight && typ == [] && d.bodyIsSet)
-              || (nota == "regex" && typ == [] && d.bodyIsSet)
-              || ((nota == "any" || nota == "empty") && !d.bodyIsSet) then
-            match setBody with
-            | .error e => .error e
-            | .ok cat' => .ok { s with cat := cat' }
-          else if d.kind == .Body then .error (kwErr d "incorrect request")
-          else .ok { s with cat := cat }
-
-/-- addResponse (for the response code itself and for Body under it) -/
-def addResponse (s : BSt) (d : Dir) (anc : List Dir) : Except PErr BSt :=
-  let sn := d.namedParam "SchemaNotation"
-  let typ := d.namedParam "Type"
-  if sn != [] && typ != [] then .error (kwErr d "directive parameters `Type` and `SchemaNotation` cannot be declared simultaneously")
+  else if d.namedParam "SchemaNotation" != [] && d.namedParam "Type" != [] then
+    .error (kwErr d "directive parameters `Type` and `SchemaNotation` cannot be declared simultaneously")
   else
     match bodySpec d with
     | .error e => .error e
     | .ok (fmt, nota) =>
-      let clash : Bool :=
-        d.kind == .Body &&
-          (match anc with
-           | p :: _ => p.kind == .HTTPResponseCode && typ != [] && p.namedParam "Type" != []
-           | [] => false)
-      if clash then .error (kwErr d "You cannot specify User Type in the response directive if it has a child Body directive.")
+      match httpId (d :: anc) with
+      | .error e => .error (kwErr d e)
+      | .ok (id, _) =>
+        if requestBodyCase d nota then
+          match setRequestBody (markRequest s.cat d id) d id fmt nota with
+          | .error e => .error e
+          | .ok cat' => .ok { s with cat := cat' }
+        else if d.kind == .Body then .error (kwErr d "incorrect request")
+        else .ok { s with cat := markRequest s.cat d id }
+
+/-- Catalog.AddResponse: only for the response-code directive -/
+def markResponse (cat : Cat) (d : Dir) (id : Bytes) : Cat :=
+  if d.kind == .HTTPResponseCode then
+    cat.updHttp id fun h => { h with responses := h.responses ++ [⟨d.keyword, d.ann, none, false, d⟩] }
+  else cat
+
+/-- Catalog.AddResponseBody (the last response of the interaction gets the body) -/
+def setResponseBody (cat : Cat) (d : Dir) (id : Bytes) (fmt nota : String) : Except PErr Cat :=
+  match cat.findInter id with
+  | some (.http h) =>
+    match h.responses.reverse with
+    | [] => .error (kwErr d "the response cannot be empty for \"_\"")
+    | last :: before =>
+      .ok (cat.updHttp id fun h => { h with responses := (({ last with body := some (fmt, nota) }) :: before).reverse })
+  | _ => .error (kwErr d "resource not found \"_\"")
+
+/-- Body under a response code that names a user type, although the response code already does -/
+def responseTypeClash (d : Dir) (anc : List Dir) : Bool :=
+  d.kind == .Body &&
+    (match anc with
+     | p :: _ => p.kind == .HTTPResponseCode && d.namedParam "Type" != [] && p.namedParam "Type" != []
+     | [] => false)
+
+/-- addResponse (for the response code itself and for Body under it) -/
+def addResponse (s : BSt) (d : Dir) (anc : List Dir) : Except PErr BSt :=
+  if d.namedParam "SchemaNotation" != [] && d.namedParam "Type" != [] then
+    .error (kwErr d "directive parameters `Type` and `SchemaNotation` cannot be declared simultaneously")
+  else
+    match bodySpec d with
+    | .error e => .error e
+    | .ok (fmt, nota) =>
+      if responseTypeClash d anc then .error (kwErr d "You cannot specify User Type in the response directive if it has a child Body directive.")
       else
         match httpId (d :: anc) with
         | .error e => .error (kwErr d e)
         | .ok (id, _) =>
-          let cat := if d.kind == .HTTPResponseCode then
-              s.cat.updHttp id fun h => { h with responses := h.responses ++ [⟨d.keyword, d.ann, none, false, d⟩] }
-            else s.cat
-          let wantsBody := typ != [] || d.bodyIsSet || nota == "any" || nota == "empty"
-          if wantsBody then
-            match cat.findInter id with
-            | some (.http h) =>
-              match h.responses.reverse with
-              | [] => .error (kwErr d "the response cannot be empty for \"_\"")
-              | last :: before =>
-                let cat' := cat.updHttp id fun h => { h with responses := (({ last with body := some (fmt, nota) }) :: before).reverse }
-                .ok { s with cat := cat' }
-            | _ => .error (kwErr d "resource not found \"_\"")
+          if d.namedParam "Type" != [] || d.bodyIsSet || nota == "any" || nota == "empty" then
+            match setResponseBody (markResponse s.cat d id) d id fmt nota with
+            | .error e => .error e
+            | .ok cat' => .ok { s with cat := cat' }
           else if d.kind == .Body then .error (kwErr d mBodyEmpty)
-          else .ok { s with cat := cat }
+          else .ok { s with cat := markResponse s.cat d id }
 
 /-- one directive; `anc` = ancestors innermost first, `kids` its children, `parentKids` its siblings incl. itself,
     `before` = the siblings before it -/
